@@ -17,6 +17,11 @@ ALPHABET = ['a', 'b', '%', '_', '.', '*', '\\', '[', '(', '^', '$', '+', '?', '|
 SPECIAL = set(ALPHABET) - {'a', 'b'}
 QUANT_ALPHABET = ['a', '{', '}', '1', '2', ',', '%', '_']
 NEWLINE_ALPHABET = ['a', '%', '_', '\n', '\r', '\u2028', '\x85']
+# patterns and texts that are also names the host language gives a meaning to (members of Object.prototype / Map / dict, keywords, constants):
+# in a pattern each `_` is a wildcard, every other character stands for itself
+HOST_WORDS = ['constructor', 'toString', 'valueOf', 'hasOwnProperty', 'isPrototypeOf', 'toLocaleString', 'propertyIsEnumerable', '__proto__', '__defineGetter__',
+              '__lookupGetter__', 'prototype', 'length', 'size', 'get', 'set', 'has', 'keys', 'null', 'undefined', 'NaN', 'None', 'True', 'false', '__class__', '__dict__',
+              '__init__', '__len__', 'self', 'this', 'pattern', 'text', 'like', 'LIKE', 'cache', 'match', 'test', 'exec', 'source', 'flags', 'lastIndex', 'then', 'toJSON']
 EXTRA_META = [')', ']', '{', '}', '-', '#', ' ', '&', '~', '/', "'", '"']
 
 PAT_LEN = {'quick': 3, 'thorough': 4}
@@ -34,6 +39,7 @@ def plan(tier, seed):
     specs += [{'kind': 'random', 'i': i, 'n': RANDOM_PAIRS[tier] // 8} for i in range(8)]
     specs += [{'kind': 'newlines', 'engine': e} for e in ('py', 'js')]
     specs += [{'kind': 'quantifiers', 'engine': e} for e in ('py', 'js')]
+    specs += [{'kind': 'words', 'engine': e} for e in ('py', 'js')]
     if tier == 'thorough':
         specs += [{'kind': 'derived', 'k': 32, 'i': i} for i in range(32)]
     return specs
@@ -206,10 +212,14 @@ def run_shard(spec, res):
                 res.violation('js-async-noise', 'unhandled rejection / warning in node: %r' % noise[:3], {'engine': 'js', 'noise': noise[:3]})
         finally:
             node.close()
-    elif kind in ('newlines', 'quantifiers'):
+    elif kind in ('newlines', 'quantifiers', 'words'):
         # newlines: line breaks are characters like any other (multi-line cells come from quoted_rfc files, lists, dataframes)
         # quantifiers: literal text that a regular expression would read as a repetition count ({2}, {1,}) or a class / group fragment
-        if kind == 'newlines':
+        if kind == 'words':
+            pats = HOST_WORDS + [w[:3] + '%' for w in HOST_WORDS] + ['%' + w[-3:] for w in HOST_WORDS] + [w.replace('o', '_') for w in HOST_WORDS] + ['%' + w + '%' for w in HOST_WORDS[:12]]
+            pats = sorted(set(pats))
+            texts = sorted(set(HOST_WORDS + [w.replace('_', 'x') for w in HOST_WORDS] + [w + 's' for w in HOST_WORDS[:12]] + ['a_proto_b', 'xyprotozw', '', 'constructo', 'Constructor']))
+        elif kind == 'newlines':
             texts = [''.join(t) for t in enum.words(NEWLINE_ALPHABET, 3)]
             pats = [''.join(t) for t in enum.words(NEWLINE_ALPHABET, 3 if tier == 'quick' else 4)]
         else:
@@ -285,11 +295,11 @@ def run_shard(spec, res):
 
 def summarize(tier, seed, m):
     return {
-        'rule': 'exhaustive: all patterns of length <= %d x all single-line texts of length <= %d over the 14-symbol alphabet %s through `select like(a1, a2)` (every 5th batch through `where like(a1, a2)`) on the Python engine; patterns <= %d x texts <= %d on the JS engine via node; %d random longer Unicode pairs (pattern derived from the text, then perturbed; for JS half of them with characters outside the BMP, judged on UTF-16 code units)%s. distinct_nontrivial counts pairs whose pattern contains a wildcard or a regular-expression metacharacter (exhaustive legs, disjoint by construction) plus distinct random pairs.' % (
+        'rule': 'exhaustive: all patterns of length <= %d x all single-line texts of length <= %d over the 14-symbol alphabet %s through `select like(a1, a2)` (every 5th batch through `where like(a1, a2)`) on the Python engine; patterns <= %d x texts <= %d on the JS engine via node; %d random longer Unicode pairs (pattern derived from the text, then perturbed; for JS half of them with characters outside the BMP, judged on UTF-16 code units)%s; a words leg (py + js): patterns and texts that are names the host language gives a meaning to (Object.prototype / Map / dict members, keywords, constants), plain and with wildcards. distinct_nontrivial counts pairs whose pattern contains a wildcard or a regular-expression metacharacter (exhaustive legs, disjoint by construction) plus distinct random pairs.' % (
             PAT_LEN[tier], TXT_LEN[tier], ''.join(ALPHABET), JS_PAT_LEN[tier], JS_TXT_LEN[tier], RANDOM_PAIRS[tier],
             '; every length-5 pattern containing a wildcard (and 1/7 of the others) against texts derived from it (wildcard instantiations and their single-symbol edits)' if tier == 'thorough' else ''),
         'exhaustive': True,
-        'required': ['py_exhaustive_pairs', 'py_random_pairs', 'py_newline_pairs', 'py_quantifier_pairs'],
+        'required': ['py_exhaustive_pairs', 'py_random_pairs', 'py_newline_pairs', 'py_quantifier_pairs', 'py_word_pairs'],
         'assumptions': ['rv.model.refcsv.like is SQL LIKE', 'single-line texts only (no LF, CR, NEL, LS, PS), as quantified'],
     }
 
